@@ -1126,6 +1126,45 @@ def computeCDeref (localVar : Nat) (isIndirect : Bool) : Bool × Bool × Bool :=
   else if isIndirect then (true, true, false)
   else (false, false, true)
 
+/-! ### the VALUE attribute of a bind(C) dummy argument (`VerifyAttrs.check_arg_attrs`) -/
+
+/-- what `check_arg_attrs` looks at to default `attrs["value"]`, and (last two fields) what it does NOT look
+    at: const-ness and the explicit intent of the declaration -/
+structure ValueD where
+  /-- `+assumedtype` given -/
+  assumedtype : Bool
+  /-- `+value` as written: none (absent), some true / some false -/
+  given : Option Bool
+  /-- pointer or reference declarator -/
+  isIndirect : Bool
+  /-- typemap name is `void` -/
+  isVoid : Bool
+  /-- `len(declarator.pointer)` -/
+  nptr : Nat
+  /-- `int x[10]` -/
+  isArray : Bool
+  isConst : Bool
+  /-- explicit `+intent(..)`: 0 none, 40 in, 41 out, 42 inout -/
+  intent : Nat
+  deriving Repr, DecidableEq
+
+/-- `attrs["value"]` after `check_arg_attrs` (none: not set).  `+assumedtype` with `+value` raises. -/
+def valueAttr (d : ValueD) : Res (Option Bool) :=
+  if d.assumedtype then (if d.given == some true then .oob else .ok d.given)
+  else match d.given with
+    | some g => .ok (some g)
+    | none =>
+      if d.isIndirect then .ok (if d.isVoid && d.nptr == 1 then some true else none)
+      else if d.isArray then .ok none
+      else .ok (some true)
+
+/-- a `type(C_PTR)` actual (`.ref a els`: the address `a` the caller supplied, `els` found there) at the
+    bind(C) boundary: a VALUE dummy hands the C function the address itself; without VALUE the C function
+    gets the address `var` of the caller's C_PTR variable, where it finds the bits of `a` -/
+def cptrAtBoundary (value : Bool) (var : Nat) : Val → Val
+  | .ref a els => if value then .ref a els else .ref var [(a : Int)]
+  | v => v
+
 /-! ### `generic_function`: which C function each fortran_generic clone calls -/
 
 /-- `get_order`: one code per parameter, 0 `-` (ignored), 1 `s` scalar, 2 `a` array.  A parameter is
